@@ -63,6 +63,7 @@ class Contract:
         self.props = tuple((_kw(deco, 'props', '') or '').split())
         self.assumed = deco.func.id == 'assumed_contract'
         self.note = _kw(deco, 'note', '')
+        self.shards = _kw(deco, 'shards', 1)
         a = fd.args
         self.param_names = [x.arg for x in a.posonlyargs + a.args + a.kwonlyargs]
         self.param_kinds = {x.arg: kinds.parse_kind(x.annotation) for x in a.posonlyargs + a.args + a.kwonlyargs}
@@ -264,7 +265,7 @@ class FunctionReport:
         self.trusted_facts = set()
 
 
-def verify_function(c, registry, feas_timeout=1500):
+def verify_function(c, registry, feas_timeout=300):
     """generate all obligations for repository function `c.target` against contract `c`"""
     rep = FunctionReport(c.target)
     try:
@@ -372,7 +373,7 @@ def verify_function(c, registry, feas_timeout=1500):
     return rep
 
 
-def verify_lemma(lem, registry, feas_timeout=1500):
+def verify_lemma(lem, registry, feas_timeout=300):
     """a lemma is a ghost client: executed like a function; `requires` are assumed, `ensures` are proved"""
     rep = FunctionReport('lemma.' + lem.name)
     eng = spec_engine(lem.sidecar, lem.fd, 'lemma.' + lem.name, registry)
